@@ -94,3 +94,38 @@ Proof. apply chk_mem_sem. Qed.
 Lemma chk_store_sem E a n : env_ok E -> 0 <= a < 2 ^ 64 -> 0 < n <= 8 ->
   chk_store E a n = if access_ok E a n then Ok tt else Err EOobStore.
 Proof. apply chk_mem_sem. Qed.
+
+(** * stores touch nothing but the addressed bytes of one region *)
+Lemma splice_length d o b : (o + length b <= length d)%nat -> length (splice d o b) = length d.
+Proof. intros H. unfold splice. rewrite !app_length, firstn_length, skipn_length. lia. Qed.
+
+Lemma splice_nth_outside d o b k : (o + length b <= length d)%nat -> (k < o \/ o + length b <= k)%nat ->
+  nth k (splice d o b) 0 = nth k d 0.
+Proof.
+  intros Hl Hk. unfold splice. destruct Hk as [Hk|Hk].
+  - rewrite app_nth1 by (rewrite firstn_length; lia). apply nth_firstn_lt. exact Hk.
+  - rewrite app_nth2 by (rewrite firstn_length; lia). rewrite firstn_length.
+    replace (Nat.min o (length d)) with o by lia.
+    rewrite app_nth2 by lia. rewrite nth_skipn. f_equal. lia.
+Qed.
+
+(** the regions of [mwrite m a b]: same bases and lengths; data differ at most in the first region
+    containing the access, at the addressed offsets *)
+Lemma mwrite_frame m a b : forall k r r',
+  nth_error m k = Some r -> nth_error (mwrite m a b) k = Some r' ->
+  r_base r' = r_base r /\ length (r_data r') = length (r_data r) /\
+  forall j, (Z.of_nat j < a - r_base r \/ a - r_base r + len b <= Z.of_nat j) -> nth j (r_data r') 0 = nth j (r_data r) 0.
+Proof.
+  induction m as [|r0 m IH]; intros k r r' H1 H2; [destruct k; discriminate|].
+  cbn [mwrite] in H2. destruct (inside r0 a (len b)) eqn:In0.
+  - destruct k as [|k]; cbn in H1, H2.
+    + inversion H1; inversion H2; subst. cbn [r_base r_data].
+      unfold inside, r_end, r_len, len in *. rewrite andb_true_iff, !Z.leb_le in In0.
+      assert (Hl : (Z.to_nat (a - r_base r) + length b <= length (r_data r))%nat) by lia.
+      split; [reflexivity|]. split; [apply splice_length; exact Hl|].
+      intros j Hj. apply splice_nth_outside; [exact Hl|]. lia.
+    + rewrite H1 in H2. inversion H2; subst. auto.
+  - destruct k as [|k]; cbn in H1, H2.
+    + inversion H1; inversion H2; subst. auto.
+    + eapply IH; eauto.
+Qed.
